@@ -4,7 +4,8 @@
    call_fn_future_awaiter) x outcome (value v / exception e / dropped promise, any v e) x timing (future constructed
    ready, resolved inside the init function before the registration, resolved by a second thread, resolved later by
    the registering thread) x helper storage (heap / counting storage / reusable_storage / one of two trailer-tagged
-   storages / reusable_storage_mtsafe) x converter (returns src + d / throws, any d) x optional competing resolver
+   storages / reusable_storage_mtsafe) x converter (returns src + d / throws / resolves with an exception / declines / forwards the promise to another thread, any d)
+   x optional competing resolver
    on a third thread (value / exception / p(drop));
    `reachable c s` ranges over every schedule of the registering thread and the resolver threads (every interleaving
    at hook-point granularity: resolution before, during and after the registration);
@@ -18,10 +19,10 @@ Theorem c18_no_lost_completion : forall c s,
 Proof. exact terminal_done. Qed.
 Print Assumptions c18_no_lost_completion.
 
-(* no livelock: every schedule of every valid configuration reaches a terminal state within 80 steps, so the
+(* no livelock: every schedule of every valid configuration reaches a terminal state within 90 steps, so the
    `terminal` hypotheses below are met by every complete run *)
 Theorem c18_every_schedule_terminates : forall c sched fuel,
-  valid c = true -> 80 <= fuel -> terminal (fst (run_sched c fuel (init c) sched [])).
+  valid c = true -> 90 <= fuel -> terminal (fst (run_sched c fuel (init c) sched [])).
 Proof. exact every_schedule_terminates. Qed.
 Print Assumptions c18_every_schedule_terminates.
 
@@ -75,7 +76,8 @@ Proof. exact terminal_final. Qed.
 Print Assumptions c18_final_state.
 
 (* converter: at the end the outer future holds conv(v) / the converter's exception / the source's exception
-   (await_canceled for a broken promise), resolved once, delivered once; the converter ran once iff there was a value,
+   (await_canceled for a broken promise) / no value when the converter declined, resolved once, delivered once
+   (by the late resolver thread when the converter forwarded the promise); the converter ran once iff there was a value,
    and the log is exactly [converter call; outer delivery] *)
 Theorem c18_conv_value_exception : forall c s,
   valid c = true -> is_conv c = true -> reachable c s -> terminal s ->
@@ -111,8 +113,21 @@ Print Assumptions c18_oracle_accepts_model.
 (* non-vacuity: future_conv with a throwing converter into a race of a value against p(drop) on three threads; the
    competitor wins, the converter is never called, the outer future gets await_canceled *)
 Example c18_nonvacuous :
-  let c := mkCfg AConv 2 0 (KVal 5) (Some KDrop) true 9 in
+  let c := mkCfg AConv 2 0 (KVal 5) (Some KDrop) 1 9 in
   let r := fst (run_sched c 100 (init c) [0;0;0;0;2;2;1;1;2;0;1;2;0;1;2;0;0]%Z []) in
   valid c = true /\ all_enabled r = [] /\ won r = 2 /\ ret1 r = Some false /\ ret2 r = Some true /\
   opayload r = OCanc /\ nconv r = 0 /\ ndeliv r = 1 /\ nores r = 1.
+Proof. vm_compute. repeat split. Qed.
+
+(* non-vacuity 2: a promise-passing converter that declines (touches nothing): the outer future still completes,
+   exactly once, as a broken promise; and one that forwards the promise: thread 2 delivers src + d *)
+Example c18_nonvacuous_decline :
+  let c := mkCfg AConv 2 0 (KVal 5) None 3 9 in
+  let r := fst (run_sched c 100 (init c) [0;0;0;0;1;1;1;0;1;0;1;1;0;1;1]%Z []) in
+  valid c = true /\ all_enabled r = [] /\ oslot r = SReady /\ opayload r = ONone /\ nconv r = 1 /\ ndeliv r = 1 /\ nores r = 1.
+Proof. vm_compute. repeat split. Qed.
+Example c18_nonvacuous_forward :
+  let c := mkCfg AConv 2 0 (KVal 5) None 4 9 in
+  let r := fst (run_sched c 100 (init c) [0;0;0;0;1;1;1;0;1;0;1;1;0;1;1;2;2;2]%Z []) in
+  valid c = true /\ all_enabled r = [] /\ oslot r = SReady /\ opayload r = OVal 14 /\ nconv r = 1 /\ ndeliv r = 1 /\ nores r = 1.
 Proof. vm_compute. repeat split. Qed.
